@@ -54,7 +54,8 @@ ASSUMPTIONS = ["CPython int = Lean Int; tuple comparison of (start, end, bam_ind
                "grouping by file name (switched on automatically for several BAM files) only adds grouped tables; "
                "the ungrouped outputs named by the statement are compared",
                "end to end: records handed to the resolver never carry type `suspended`; assignment ids are pairwise "
-               "different within one chromosome (drawn from a counter); the feature-id order is a total order; inside one "
+               "different within one chromosome (drawn from a counter) - both MONITORED on the kept S.save_<chr> dumps of the "
+               "partition scenarios of the pipeline oracle (harness/gen/savedumps.py); the feature-id order is a total order; inside one "
                "forwarded (sub-)region two records that BasicReadAssignment.__eq__ identifies are identical "
                "(NoConflictingDuplicates - outside it the statement is false of model and code: known finding "
                "eq_duplicate_file_order)",
@@ -822,13 +823,34 @@ def pipeline_partition(root, seed, scenario, k, part_seed, high_memory=False, th
     rng = random.Random(part_seed)
     parts = B.split_reads(rng, ds.reads, k)
     bams = [ds.write(d, bam_name="part%d.bam" % i, reads=p, write_ref=False)["bam"] for i, p in enumerate(parts)]
-    extra = (["--high_memory"] if high_memory else [])
+    # --keep_tmp: the per-chromosome dumps of both runs stay on disk for the hypothesis monitor below
+    extra = (["--high_memory"] if high_memory else []) + ["--keep_tmp"]
     one = run_one(root, "one", [paths["bam"]], paths["ref"], paths["gtf"], True, extra=extra, threads=threads)
     spl = run_one(root, "split", bams, paths["ref"], paths["gtf"], True, extra=extra, threads=threads)
     if one["rc"] != 0:
         return "infra", "single-BAM run failed: " + one["log"][-400:], 0
     n = sum(_records(one["files"]["read_assignments.tsv"]).values()) if "read_assignments.tsv" in one["files"] else 0
-    return "ok", compare_runs(one, spl, PARTITION_OUTPUTS), n
+    r = compare_runs(one, spl, PARTITION_OUTPUTS)
+    if r is None:
+        r = dump_hypotheses(root, ["one"] + (["split"] if spl["rc"] == 0 else []))
+    return "ok", r, n
+
+
+DUMP_STATS = {"files": 0, "records": 0}
+
+
+def dump_hypotheses(root, names):
+    """G6 (hypothesis audit): `hNS` (no record of the collecting stage carries type `suspended`) and `hinj` (assignment ids
+    pairwise different per chromosome) of `end_to_end_partition_invariant`, evaluated on the kept `S.save_<chr>` dumps of
+    the real runs -> None or the description of the first violated hypothesis"""
+    from gen import savedumps
+    for name in names:
+        st, probs = savedumps.check_dumps(os.path.join(root, name, "S", "aux"), "S.save")
+        DUMP_STATS["files"] += st["files"]
+        DUMP_STATS["records"] += st["records"]
+        if probs:
+            return "run `%s`: %s: %s" % (name, probs[0][0], probs[0][1])
+    return None
 
 
 def enrich_gtf(path):
@@ -987,7 +1009,13 @@ def oracle_pipeline(ctx, broken):
         if info.get("records"):
             ctx.count("oracle:pipeline_partition_read_records", info["records"])
         if r:
-            ctx.fail(KIND[spec["kind"]], spec, r)
+            ctx.fail("pipeline:dump_hypothesis" if ": hyp_" in r[:60] else KIND[spec["kind"]], spec, r)
+    ctx.count("oracle:pipeline_dump_hypotheses_files", DUMP_STATS["files"])
+    ctx.count("oracle:pipeline_dump_hypotheses_records", DUMP_STATS["records"])
+    from gen import savedumps
+    st_ = savedumps.selftest()
+    if st_:
+        ctx.fail("monitor_selftest", {"kind": "monitor_selftest"}, st_)
     if specs and all(st == "infra" for _, st, _, _ in results):
         raise RuntimeError("every pipeline scenario failed before the comparison: " + str(ctx.notes[-1])[:500])
     ctx.extra["search_only_clause"] = ("annotation format equivalence (.gtf/.gtf.gz/.db x --complete_genedb): %d differential "
@@ -1029,6 +1057,9 @@ def replay(ctx, failure):
         from props import C12e2e
         r = C12e2e.dup_file_order_probe()
         return bool(r) and not r.startswith("infra")
+    if kind == "monitor_selftest":
+        from gen import savedumps
+        return savedumps.selftest() is not None
     if kind.startswith("pipeline:"):
         _, st, r, _ = _job(inp)
         return bool(r) and st == "ok"
